@@ -111,6 +111,13 @@ pub fn decode_hunk(bytes: &[u8]) -> Option<Vec<HEntry>> {
     if es.iter().any(|e| e.addrs.iter().any(|a| !is_hash_name(&a.hash))) {
         return None;
     }
+    // a block hash is parsed from hex in either case and always printed in lower case
+    let mut es = es;
+    for e in es.iter_mut() {
+        for a in e.addrs.iter_mut() {
+            a.hash = a.hash.to_ascii_lowercase();
+        }
+    }
     Some(es)
 }
 
